@@ -250,6 +250,31 @@ Fixpoint tee_run (rs : list result) (tee : list Z) : list result * list Z :=
       let '(res', tee1) := tee_read res tee in
       let '(out, tee2) := tee_run rest tee1 in (res' :: out, tee2)
   end.
+(* SetTee while a read is in progress: the read loop spends its idle time blocked inside backend.Read, so a tee
+   installed, replaced or removed from another goroutine takes effect for the bytes that read returns.  A history is a
+   list of (read result, switch) where switch 0 = no SetTee during this read, 1 = SetTee(A), 2 = SetTee(B),
+   3 = SetTee(nil); [cur] is the tee installed (1 A, 2 B, 3 none).  Returns the bytes A and B received. *)
+Fixpoint tee_sw_run (rs : list (result * Z)) (cur : Z) (a b : list Z) : list Z * list Z :=
+  match rs with
+  | [] => (a, b)
+  | (res, sw) :: rest =>
+      let cur' := if sw =? 0 then cur else sw in
+      let d := fst res in
+      if 0 <? zlen d then
+        if cur' =? 1 then tee_sw_run rest cur' (a ++ d) b
+        else if cur' =? 2 then tee_sw_run rest cur' a (b ++ d)
+        else tee_sw_run rest cur' a b
+      else tee_sw_run rest cur' a b
+  end.
+(* specification: the tee in force at each read, then each tee gets the data of the reads it was in force at *)
+Fixpoint tee_in_force (rs : list (result * Z)) (cur : Z) : list (list Z * Z) :=
+  match rs with
+  | [] => []
+  | (res, sw) :: rest => let cur' := if sw =? 0 then cur else sw in (fst res, cur') :: tee_in_force rest cur'
+  end.
+Definition tee_gets (which : Z) (l : list (list Z * Z)) : list Z :=
+  flat_map (fun p => if snd p =? which then fst p else []) l.
+
 (* the number of tee.Write calls *)
 Definition tee_writes (rs : list result) : Z := zlen (filter (fun r => 0 <? zlen (fst r)) rs).
 
